@@ -17,7 +17,12 @@ def programs(spec, mode):
             kind = kinds[i % len(kinds)]
             pseed = seed * 1000003 + i
             pad = (i % 23 == 7) and kind not in ("module", "class")
-            src = proggen.generate(pseed, kind, mode, size=spec.get("size", 2 + (i % 3 == 0)), pad=pad)
+            size = spec.get("size", 2 + (i % 3 == 0))
+            src = proggen.generate(pseed, kind, mode, size=size, pad=pad)
+            while src.count("\n") > 130 and size > 1:
+                # dis is quadratic on huge functions; keep individual extractions fast
+                size -= 1
+                src = proggen.generate(pseed, kind, mode, size=size, pad=pad)
             yield ("random", pseed, kind, "pad" if pad else ""), src, kind
     elif leg == "templates":
         kinds = spec.get("kinds") or (["coro", "gen", "agen"] if mode == "suspended"
